@@ -128,6 +128,58 @@ func runCanariesImpl(dir string) string {
 			expect("each-iteration/"+t.name, t.bad, v)
 		}
 	}
+	// new functions are looked through: path rule summaries, moved loops, field-sensitive slices
+	for _, t := range []struct {
+		name string
+		bad  bool
+	}{{"MustViaNewGood", false}, {"MustViaNewBad", true}} {
+		if fi := need(t.name); fi != nil {
+			_, v := w.mustPassOK(fi.SSA, isValidate, -1, "validate")
+			expect("inline-mustcall/"+t.name, t.bad, v)
+		}
+	}
+	for _, t := range []struct {
+		name string
+		bad  bool
+	}{{"EachViaNewGood", false}, {"EachViaNewBad", true}, {"EachNegatedGood", false}} {
+		if fi := need(t.name); fi != nil {
+			loops := w.rangeLoops(fi, w.rangeOverType(fi, "[]"+canaryPkg+".item"))
+			if len(loops) != 1 {
+				fails = append(fails, fmt.Sprintf("inline-each/%s: expected the loop to be found through the new function, found %d", t.name, len(loops)))
+				continue
+			}
+			owner := w.ownerOf(fi, loops[0])
+			skips := []skipSpec{{Cond: func(e ast.Expr) bool {
+				se, ok := e.(*ast.SelectorExpr)
+				return ok && se.Sel.Name == "Hidden"
+			}, Pol: true, Desc: "hidden"}}
+			_, v := w.eachIteration(owner, w.cfgOf(owner), loops[0], w.appendTo(owner, w.resultSlice(owner)), skips, false)
+			expect("inline-each/"+t.name, t.bad, v)
+		}
+	}
+	if fi := need("SliceViaNew"); fi != nil {
+		for _, ex := range exitsOf(fi.SSA) {
+			if ex.Ret == nil {
+				continue
+			}
+			a := sliceOf(ex.Ret.Results[0])
+			if len(a.Params) == 0 {
+				fails = append(fails, "inline-slice: the slice did not reach SliceViaNew's parameters through the new function")
+			}
+			if a.Calls[canaryPkg+".inlMakePair"] {
+				fails = append(fails, "inline-slice: the new function was recorded as an opaque call")
+			}
+		}
+		at := w.exprAtoms(fi, fi.Decl.Body.List[0].(*ast.ReturnStmt).Results[0])
+		if len(at.Calls) != 0 {
+			fails = append(fails, fmt.Sprintf("inline-atoms: expected no call atoms through the new function, got %v", keys(at.Calls)))
+		}
+	}
+	if fi := need("inlCollect"); fi != nil {
+		if h := w.hostName(fi.SSA); !strings.HasSuffix(h, ".EachViaNewGood") {
+			fails = append(fails, "inline-host: a site in inlCollect is attributed to "+h+", not to EachViaNewGood")
+		}
+	}
 	// dominating guards
 	for _, t := range []struct {
 		name string
